@@ -45,4 +45,11 @@ CHECKS = {
         technique="runtime monitoring: history workload (all permutations of single-category runs) with AST-equality oracle on final files",
         ref="DESIGN.md section 4 C09",
     ),
+    "C11": dict(
+        level="exploration",
+        text="(a) icontract post-conditions on the real align()/add_x() (script consumes both sequences, m pairs only equal elements, number of matches = LCS length from an independent DP, equal common prefix matched, d/i conserved by add_x) evaluated on ALL pairs of sequences over 3 letters up to length 4 (quick) / 5 (thorough) and on random long pairs; (b) generated displays whose leaves are hand-written expressions are fixed by the real code with only `fix` approved and the source text of every element the statement guarantees (equal entry under a surviving key/keyword; equal common prefix and suffix, computed from evaluated values) is compared before/after at every nesting depth.",
+        note="Only the guaranteed set of the statement is asserted (middle-of-sequence matches and positional arguments are not). The enumerated alignment sub-space is complete; the file-level part is random exploration.",
+        technique="runtime monitoring: icontract post-conditions on align/add_x + source-segment preservation oracle on fix-only runs",
+        ref="DESIGN.md section 4 C11",
+    ),
 }
